@@ -50,8 +50,9 @@ def _strategy(dll):
         return [{"op": "inbound", "peer": a, "kind": "rts", "n": 200 if fd else 30, "session": sess, "stop_after": stop, "gap": 0.0},
                 {"op": "send", "peer": b, "kind": "rts", "n": n1, "fate": {"f": "clean", "k": 0}, "gap": g1},
                 {"op": "send", "peer": b, "kind": "rts", "n": n2, "fate": {"f": "clean", "k": 0}, "gap": g2}] + tail
-    pattern = st.builds(collide, st.integers(0, 2), st.integers(0, 2), st.integers(0, 15) if fd else st.just(0),
-                        st.sampled_from([0, 1, 2, None]), st.sampled_from([1.0, 1.1, 1.2, 1.24, 0.0, 0.01]),
+    # (an abandoned inbound session times out T2 = 1.25 s after the CTS or T1 = 0.75 s after its last data packet)
+    pattern = st.builds(collide, st.integers(0, 2), st.integers(0, 2), st.sampled_from([0, 0, 8, 1, 7, 15]) if fd else st.just(0),
+                        st.sampled_from([0, 1, 2, None]), st.sampled_from([1.0, 1.1, 1.2, 1.24, 0.5, 0.6, 0.7, 0.74, 0.0, 0.01]),
                         st.sampled_from([0.02, 0.06, 0.15, 0.27, 0.3]), size, size,
                         st.lists(st.one_of(send, inbound), max_size=6))
     # second structured shape: an outbound transfer is in flight, an inbound session on a colliding number runs to its end
@@ -70,7 +71,8 @@ def _strategy(dll):
     pattern3 = st.builds(collide3, st.integers(0, 2), st.sampled_from([0, 0, 0, 1]) if fd else st.just(0), size, size,
                          st.sampled_from([0.0, 0.0, 0.001, 0.01, 0.02]), st.sampled_from([0.0005, 0.001, 0.002, 0.005, 0.015, 0.03, 0.05]),
                          st.lists(st.one_of(send, inbound), max_size=4))
-    ops = st.one_of(rnd, rnd, pattern, pattern2, pattern3, pattern3) if fd else st.one_of(rnd, rnd, pattern, pattern2, pattern3)
+    ops = (st.one_of(rnd, rnd, pattern, pattern, pattern2, pattern2, pattern3, pattern3) if fd
+           else st.one_of(rnd, rnd, pattern, pattern, pattern2, pattern2, pattern3))
     # third structured shape (whole case): a transfer whose responder misses a data packet and gives up about when the stack's
     # own T3 expires, window 1, frame writes that take time - both aborts cross on the bus
     lateoff = st.sampled_from([-0.003, -0.0025, -0.002, -0.0015, -0.001, -0.0007, -0.0005, -0.0003, 0.0, 0.0003])
@@ -121,8 +123,25 @@ def _strategy(dll):
         "grants": st.lists(st.sampled_from([1, 2, 255]), min_size=1, max_size=2),
         "lat": st.fixed_dictionaries({"S": st.lists(st.sampled_from([0.0002, 0.0005, 0.001, 0.0025]), min_size=1, max_size=2)}),
     })
+    # sixth structured shape (whole case, J1939-22): an inbound session on the number the stack's own first session uses is
+    # abandoned and times out (T1 after its last data packet / T2 after the CTS) while a slow own transfer is running; a further
+    # own transfer to the same peer starts right afterwards
+    def number_collision(a, b, sess, stop, n1, n2, g2, tail):
+        g1 = 0.745 if stop in (1, 2) else 1.245
+        return [{"op": "inbound", "peer": a, "kind": "rts", "n": 200, "session": sess, "stop_after": stop, "gap": 0.0, "abort_at": None},
+                {"op": "send", "peer": b, "kind": "rts", "n": n1, "fate": {"f": "clean", "k": 0}, "gap": g1, "chain": False},
+                {"op": "send", "peer": b, "kind": "rts", "n": n2, "fate": {"f": "clean", "k": 0}, "gap": g2, "chain": False}] + tail
+    collision = st.fixed_dictionaries({
+        "dll": st.just(dll),
+        "ops": st.builds(number_collision, st.integers(0, 2), st.integers(0, 2), st.sampled_from([0, 0, 8]), st.sampled_from([0, 1, 2, None]),
+                         st.integers(300, 400), size, st.sampled_from([0.02, 0.03, 0.05]), st.lists(st.one_of(send, inbound), max_size=3)),
+        "reply_lat": st.sampled_from([[0.02], [0.08]]),
+        "sas": st.sampled_from([[0x30, 0x90, 0x91, 0x92], [0x00, 0x90, 0x91, 0x92], [0x80, 0xF7, 0xF8, 0x01]]),
+        "tx_time": st.sampled_from([0.0, 0.0005]), "max_cmdt": st.sampled_from([1, 2, 255]), "grants": st.sampled_from([[1], [2], [1, 2]]),
+        "lat": st.fixed_dictionaries({"S": st.lists(st.sampled_from([0.0002, 0.0005, 0.001]), min_size=1, max_size=2)}),
+    })
     if fd:
-        return st.one_of(general, general, general, general, race, own_abort, at_timeout)
+        return st.one_of(general, general, general, general, race, own_abort, at_timeout, collision)
     return st.one_of(general, general, general, general, race, own_abort)
 
 
@@ -153,7 +172,7 @@ class C10:
         return st.one_of(_strategy("j1939-21"), _strategy("j1939-22"))
 
     def examples(self, tier):
-        return 3000 if tier == "quick" else 250000
+        return 4000 if tier == "quick" else 250000
 
     def enumerate(self, tier):
         return []
